@@ -16,50 +16,50 @@ theorem slice_zero_of_length_le {α} (xs : List α) (n : Nat) (h : xs.length ≤
   simp [slice, List.take_of_length_le h]
 
 /-- `split_paragraphs` is only looked at for a paragraph separator -/
-theorem iiStep_split_irrel (ds : DataSource) (enc : Enc) (d : Option Nat) (st : IIState) (s : Seg)
-    (h : ds.cls s.cp ≠ B) : iiStep ds enc true d st s = iiStep ds enc false d st s := by
+theorem iiStep_split_irrel (ds : DataSource) (T : Text) (d : Option Nat) (st : IIState) (s : Seg)
+    (h : ds.cls s.cp ≠ B) : iiStep ds T true d st s = iiStep ds T false d st s := by
   unfold iiStep
   simp only
   split <;> simp_all
 
 /-- a non-separator leaves the paragraph bookkeeping alone -/
-theorem iiStep_noB_book (ds : DataSource) (enc : Enc) (split : Bool) (d : Option Nat) (st : IIState) (s : Seg)
+theorem iiStep_noB_book (ds : DataSource) (T : Text) (split : Bool) (d : Option Nat) (st : IIState) (s : Seg)
     (h : ds.cls s.cp ≠ B) :
-    (iiStep ds enc split d st s).paras = st.paras ∧ (iiStep ds enc split d st s).flags = st.flags ∧
-    (iiStep ds enc split d st s).paraStart = st.paraStart := by
+    (iiStep ds T split d st s).paras = st.paras ∧ (iiStep ds T split d st s).flags = st.flags ∧
+    (iiStep ds T split d st s).paraStart = st.paraStart := by
   unfold iiStep
   simp only
   split <;> (try split) <;> (try split) <;> (try split) <;> simp_all
 
-theorem iiStep_classes_length (ds : DataSource) (enc : Enc) (split : Bool) (d : Option Nat) (st : IIState) (s : Seg) :
-    (iiStep ds enc split d st s).classes.length = st.classes.length + enc.charLen s.cp := by
+theorem iiStep_classes_length (ds : DataSource) (T : Text) (split : Bool) (d : Option Nat) (st : IIState) (s : Seg) :
+    (iiStep ds T split d st s).classes.length = st.classes.length + T.enc.charLen s.cp := by
   unfold iiStep
   simp only
   split <;> (try split) <;> (try split) <;> (try split) <;> simp_all [length_setRange]
 
-theorem foldl_noB (ds : DataSource) (enc : Enc) (d : Option Nat) (l : List Seg) (st : IIState)
+theorem foldl_noB (ds : DataSource) (T : Text) (d : Option Nat) (l : List Seg) (st : IIState)
     (h : ∀ s ∈ l, ds.cls s.cp ≠ B) :
-    l.foldl (iiStep ds enc true d) st = l.foldl (iiStep ds enc false d) st ∧
-    (l.foldl (iiStep ds enc false d) st).paras = st.paras ∧
-    (l.foldl (iiStep ds enc false d) st).flags = st.flags ∧
-    (l.foldl (iiStep ds enc false d) st).paraStart = st.paraStart := by
+    l.foldl (iiStep ds T true d) st = l.foldl (iiStep ds T false d) st ∧
+    (l.foldl (iiStep ds T false d) st).paras = st.paras ∧
+    (l.foldl (iiStep ds T false d) st).flags = st.flags ∧
+    (l.foldl (iiStep ds T false d) st).paraStart = st.paraStart := by
   induction l generalizing st with
   | nil => simp
   | cons s ss ih =>
     have hs := h s (by simp)
-    have := ih (iiStep ds enc false d st s) (fun x hx => h x (by simp [hx]))
-    have hb := iiStep_noB_book ds enc false d st s hs
-    simp only [List.foldl_cons, iiStep_split_irrel ds enc d st s hs]
+    have := ih (iiStep ds T false d st s) (fun x hx => h x (by simp [hx]))
+    have hb := iiStep_noB_book ds T false d st s hs
+    simp only [List.foldl_cons, iiStep_split_irrel ds T d st s hs]
     grind
 
-theorem foldl_classes_length (ds : DataSource) (enc : Enc) (split : Bool) (d : Option Nat) (l : List Seg)
-    (st : IIState) (pos e : Nat) (hseg : SegsFrom pos l e) (hl : ∀ s ∈ l, s.len = enc.charLen s.cp)
-    (hst : st.classes.length = pos) : (l.foldl (iiStep ds enc split d) st).classes.length = e := by
+theorem foldl_classes_length (ds : DataSource) (T : Text) (split : Bool) (d : Option Nat) (l : List Seg)
+    (st : IIState) (pos e : Nat) (hseg : SegsFrom pos l e) (hl : ∀ s ∈ l, s.len = T.enc.charLen s.cp)
+    (hst : st.classes.length = pos) : (l.foldl (iiStep ds T split d) st).classes.length = e := by
   induction l generalizing st pos with
   | nil => simp [SegsFrom] at hseg; simpa [hseg] using hst
   | cons s ss ih =>
     obtain ⟨h1, _, h3⟩ := hseg
-    refine ih (iiStep ds enc split d st s) (pos + s.len) h3 (fun x hx => hl x (by simp [hx])) ?_
+    refine ih (iiStep ds T split d st s) (pos + s.len) h3 (fun x hx => hl x (by simp [hx])) ?_
     rw [iiStep_classes_length, hst, hl s (by simp)]
 
 theorem segsFrom_bounds (pos e : Nat) (l : List Seg) (h : SegsFrom pos l e) :
@@ -109,24 +109,24 @@ theorem cii_single (ds : DataSource) (t : Text) (hwf : t.WF) (hne : 0 < t.len) (
   have hsplit := (List.dropLast_concat_getLast hnil).symm
   generalize t.segs.dropLast = ini at hsplit hB
   generalize t.segs.getLast hnil = last at hsplit
-  have hlen := foldl_classes_length ds t.enc false d t.segs { paraLevel := d } 0 t.len hwf.tiles hwf.lens rfl
+  have hlen := foldl_classes_length ds t false d t.segs { paraLevel := d } 0 t.len hwf.tiles hwf.lens rfl
   have hlast : last.start + t.enc.charLen last.cp = t.len := by
     have h1 := hwf.tiles
     rw [hsplit] at h1
     have := segsFrom_last _ _ _ _ h1
     rw [hwf.lens last (by simp [hsplit])] at this
     exact this
-  obtain ⟨h1, h2, h3, h4⟩ := foldl_noB ds t.enc d ini { paraLevel := d } hB
+  obtain ⟨h1, h2, h3, h4⟩ := foldl_noB ds t d ini { paraLevel := d } hB
   simp only [computeInitialInfo] at hlen ⊢
   rw [hsplit] at hlen ⊢
   simp only [List.foldl_append, List.foldl_cons, List.foldl_nil] at hlen ⊢
   rw [h1]
-  generalize List.foldl (iiStep ds t.enc false d) { paraLevel := d } ini = st1 at *
+  generalize List.foldl (iiStep ds t false d) { paraLevel := d } ini = st1 at *
   by_cases hc : ds.cls last.cp = B
   · simp [iiStep, hc, hlast, h2, h3, h4] at hlen ⊢
     exact hlen
-  · rw [iiStep_split_irrel ds t.enc d st1 last hc]
-    obtain ⟨b1, b2, b3⟩ := iiStep_noB_book ds t.enc false d st1 last hc
+  · rw [iiStep_split_irrel ds t d st1 last hc]
+    obtain ⟨b1, b2, b3⟩ := iiStep_noB_book ds t false d st1 last hc
     simp [b1, b2, b3, h2, h3, h4, hne]
     exact hlen
 
